@@ -91,6 +91,11 @@ def step (st : St) (line : String) : St × Verdict :=
   | "codec" :: kind :: _ =>
     if kv toks "prefixfail" == some "true" && kv toks "seq" == some "true" then (st, .ok s!"codec_{kind}")
     else (st, .oracle s!"CODEC-HYP {kind}: a strict prefix of an encoding decodes, or sequential decoding of enc++enc++torn fails")
+  | "walentry" :: n :: cut :: "=>" :: res =>
+    -- the host's record type (a pointer to a GMessage) through the real log: every entry read back must be the
+    -- message appended at that position, live and after a restart (the torn last record excepted)
+    if res == ["live=ok", "reopened=ok"] then (st, .ok (if cut == "cut=0" then "walentry" else "walentry_torn"))
+    else (st, .oracle s!"WALENTRY-NOT-INTACT {n} {cut}: entries of type walEntry read back from the log differ from what was appended ({" ".intercalate res})")
   | ["sync", "unavailable"] => (st, .ok "sync_unavailable")
   | ["sync", id, d] =>
     if kv [d] "dirty" == some "false" then (st, .ok "sync_ack_after_fsync")
